@@ -1268,7 +1268,7 @@ def streams(tier):
         Stream("conversion", gen_conversion(30000 if th else 2500), check_conversion, shrink_conversion, timeout=60),
         Stream("extreme_quantiles", gen_extremes(400 if th else 48), check_extremes, shrink_sampling, timeout=60),
         Stream("normalized_quantile", gen_quantile(3000 if th else 300), check_quantile, None, timeout=30),
-        Stream("space_rvs", gen_sampling(["space_rvs", "space_rvs_cs", "dim_rvs"], 70 if th else 11, n), check_sampling, shrink_sampling, timeout=300),
-        Stream("optimizer_ask", gen_sampling(["cbo_ask"], 140 if th else 25, n), check_sampling, shrink_sampling, timeout=300),
+        Stream("space_rvs", gen_sampling(["space_rvs", "space_rvs_cs", "dim_rvs"], 50 if th else 11, n), check_sampling, shrink_sampling, timeout=300),
+        Stream("optimizer_ask", gen_sampling(["cbo_ask"], 80 if th else 25, n), check_sampling, shrink_sampling, timeout=300),
         Stream("random_search", gen_sampling(["random_search"], 60 if th else 12, n), check_sampling, shrink_sampling, timeout=300),
     ]
